@@ -16,8 +16,10 @@
 #   g_cv_ok    the peer's CertificateVerify signature verified (uninterpreted predicate sig_ok) under the public key
 #              of the certificate the peer sent, over the transcript hash at that moment, with the peer's role string
 #   g_psk_sel  (client) a PSK had been offered in the ClientHello and the ServerHello selected identity 0
-#   g_fin_ok   the peer's Finished verify_data equalled the value computed from the own transcript (MAC validity
-#              itself is an uninterpreted outcome: the adversary of C11 knows the keys and can make it true)
+#   g_fin_ok   the peer's Finished verify_data equalled - extensionally: same length, same bytes - the uninterpreted MAC
+#              fin_mac(transcript BEFORE that Finished, the peer's handshake traffic secret) (strengthened for C03; on the
+#              server through the class invariant H8 over the ghosts g_fin_base / g_fin_key); MAC validity itself stays
+#              uninterpreted: the adversary of C11 knows the keys and can make it true
 
 R.module_names.update({"ssl", "x509"})
 R.consts["ssl.CERT_NONE"] = 0  # ssl.VerifyMode.CERT_NONE (stdlib constant)
@@ -66,13 +68,8 @@ R.contract(
     trusted=True,
     note="tls.py helper building cryptography padding/hash objects: a deterministic function of the algorithm code (KeyError for unknown codes)",
 )
-R.contract(
-    "verify_certificate",
-    params={"certificate": "Optional[X509Certificate]", "chain": "list[X509Certificate]", "server_name": "Optional[str]", "cadata": "Optional[bytes]", "cafile": "Optional[str]", "capath": "Optional[str]"},
-    raises={"Alert": None, "Exception": None},
-    trusted=True,
-    note="tls.py wrapper around service_identity / OpenSSL chain validation (C03 territory): side-effect free, may raise",
-)
+# verify_certificate: under contract in contracts/tls_auth.py (C03): which certificates the verifier trusted, dates and name
+# check, every verification failure an Alert
 
 # ------------------------------------------------------------------------------------------------ key schedule
 R.field_types("KeySchedule", algorithm="Any", cipher_suite="CipherSuite", generation="int", hash="Any", hash_empty_value="bytes", secret="bytes", g_hash="bytes")
@@ -80,7 +77,11 @@ _KS = dict(trusted=True, note="KeySchedule wraps cryptography hash/HKDF objects:
 R.contract("KeySchedule.update_hash", params={"data": "bytes"}, modifies=["self.g_hash"], ensures=["same(self.g_hash, old(self.g_hash) + data)"], **_KS)
 R.contract("KeySchedule.extract", params={"key_material": "Optional[bytes]"}, modifies=["self.generation", "self.secret"], ensures=["self.generation == old(self.generation) + 1"], **_KS)
 R.contract("KeySchedule.derive_secret", returns="bytes", raises={"Exception": None}, **_KS)
-R.contract("KeySchedule.finished_verify_data", params={"secret": "Optional[bytes]"}, returns="bytes", raises={"Exception": None}, **_KS)
+# (C03) the Finished MAC (RFC 8446 4.4.4: HMAC(finished_key(secret), Transcript-Hash)) is SOME fixed function of the
+# bytes hashed so far and the base secret - nothing else is used about it
+R.ufunc("fin_mac", ["bytes", "Optional[bytes]"], "bytes")
+R.contract("KeySchedule.finished_verify_data", params={"secret": "Optional[bytes]"}, returns="bytes", raises={"Exception": None},
+           ensures=["same(result, fin_mac(self.g_hash, secret))"], **_KS)
 R.contract("KeySchedule.certificate_verify_data", returns="bytes", ensures=["same(result, cv_data(self.g_hash, context_string))"], **_KS)
 
 # ------------------------------------------------------------------------------------------------ message parsers
@@ -134,6 +135,8 @@ R.field_types(
     g_cv_ok="bool",
     g_psk_sel="bool",
     g_fin_ok="bool",
+    g_fin_base="bytes",  # (C03, server) the transcript at the moment the expected client Finished was computed
+    g_fin_key="Optional[bytes]",  # (C03, server) the secret it was computed with (client handshake traffic secret)
     _new_session_ticket="Optional[NewSessionTicket]",
     _request_client_certificate="bool",
     _psk_key_exchange_mode="Optional[int]",
@@ -218,6 +221,16 @@ def legal_succ(s, mt, t, resumed, has_peer_cert):
             or (s == State.SERVER_EXPECT_CERTIFICATE_VERIFY and t == State.SERVER_EXPECT_FINISHED)
             or (s == State.SERVER_EXPECT_FINISHED and t == State.SERVER_POST_HANDSHAKE))
 
+def hash_fed(h1, h0, m, n):
+    '''(C03) transcript h1 = transcript h0 followed by the first n bytes of m (and nothing else)'''
+    return (len(h1) == len(h0) + n
+            and forall(lambda k: implies(0 <= k < len(h0), elem(h1, k) == elem(h0, k)))
+            and forall(lambda k: implies(0 <= k < n, elem(h1, len(h0) + k) == elem(m, k))))
+
+def hash_extends(h1, h0):
+    '''(C03) the transcript only grew: h0 is a prefix of h1'''
+    return len(h1) >= len(h0) and forall(lambda k: implies(0 <= k < len(h0), elem(h1, k) == elem(h0, k)))
+
 def keys_same(c):
     return same(c.g_key_log, old(c.g_key_log)) and same(c._enc_key, old(c._enc_key)) and same(c._dec_key, old(c._dec_key))
 
@@ -264,6 +277,12 @@ H_SERVER_AUTH = [
     "implies(self.state == State.SERVER_EXPECT_CLIENT_HELLO or self.state == State.SERVER_EXPECT_CERTIFICATE, self._peer_certificate is None)",
 ]
 R.invariant("Context", H_SERVER_AUTH)
+# ---- (C03) H8 server: while the client's Finished is awaited, the stored expected verify_data IS the MAC over the
+# transcript as it stood before that Finished (g_fin_base), under the client handshake traffic secret
+H_FIN = [
+    "implies(self.state == State.SERVER_EXPECT_FINISHED, same(self._expected_verify_data, fin_mac(self.g_fin_base, self.g_fin_key)))",
+]
+R.invariant("Context", H_FIN)
 
 _NOUM = {"AlertUnexpectedMessage": "False"}  # handlers never produce the dispatcher's alert themselves
 _KS_FIELDS = ["KeySchedule.g_hash[*]", "KeySchedule.generation[*]", "KeySchedule.secret[*]"]
@@ -350,7 +369,7 @@ R.contract(
         "self.state", "self._enc_key", "self._dec_key", "self.g_key_log", "self.g_cv_ok", "self.g_psk_sel", "self._session_resumed",
         "self.key_schedule", "self._key_schedule_psk", "self._key_schedule_proxy", "self._peer_certificate", "self._peer_certificate_chain",
         "self._certificate_request", "self.alpn_negotiated", "self.early_data_accepted", "self.received_extensions",
-        "self.g_fin_ok", "self._expected_verify_data", "self._new_session_ticket", "self._next_dec_key", "self._psk_key_exchange_mode",
+        "self.g_fin_ok", "self.g_fin_base", "self.g_fin_key", "self._expected_verify_data", "self._new_session_ticket", "self._next_dec_key", "self._psk_key_exchange_mode",
         "self.client_random", "self.server_random", "self.legacy_session_id", "self._x25519_private_key", "self._x448_private_key", "self._ec_private_keys",
         "Buffer.g_pos[*]", "Buffer.g_mem[*]",
     ] + _KS_FIELDS,
@@ -376,6 +395,10 @@ R.contract(
 # the unexpected-message alert itself, and on ANY failure leaves the state where it was.
 _FAIL = ["self.state == old(self.state)", "len(self.g_key_log) == len(old(self.g_key_log))", "keys_same(self)", "auth_same(self)"]
 _HASH = "self.key_schedule.g_hash"
+# (C03) transcript integrity of a receive handler: the running hash was fed exactly the bytes of the message the parser
+# consumed (Buffer.data = g_mem[:g_pos]; the dispatcher asserts g_pos == g_cap afterwards: the whole message), once, after
+# everything that was there before, and nothing else
+_T_FED = "hash_fed(self.key_schedule.g_hash, old(self.key_schedule.g_hash), input_buf.g_mem, input_buf.g_pos)"
 R.contract(
     "x509.load_der_x509_certificate",
     returns="X509Certificate",
@@ -407,6 +430,7 @@ R.contract(
         "same(self.g_key_log, old(self.g_key_log) + [(Direction.ENCRYPT, Epoch.HANDSHAKE)])",
         "same(self._dec_key, old(self._dec_key))",
         "auth_same(self)",
+        _T_FED,
     ],
     on_raise={
         "Exception": _FAIL,
@@ -423,7 +447,7 @@ R.contract(
     requires=["self.state == State.CLIENT_EXPECT_CERTIFICATE_REQUEST_OR_CERTIFICATE"],
     raises=dict(_NOUM, Exception=None),
     modifies=["self._certificate_request", "self.state", "input_buf.g_pos", _HASH],
-    ensures=["self.state == State.CLIENT_EXPECT_CERTIFICATE", "len(self.g_key_log) == len(old(self.g_key_log))", "keys_same(self)", "auth_same(self)"],
+    ensures=["self.state == State.CLIENT_EXPECT_CERTIFICATE", "len(self.g_key_log) == len(old(self.g_key_log))", "keys_same(self)", "auth_same(self)", _T_FED],
     on_raise={"Exception": _FAIL},
     prop=["C11"],
 )
@@ -437,7 +461,7 @@ R.contract(
     requires=["self.state == State.CLIENT_EXPECT_CERTIFICATE_REQUEST_OR_CERTIFICATE or self.state == State.CLIENT_EXPECT_CERTIFICATE"],
     raises=dict(_NOUM, Exception=None),
     modifies=["self._peer_certificate", "self._peer_certificate_chain", "self.state", "input_buf.g_pos", _HASH],
-    ensures=["self.state == State.CLIENT_EXPECT_CERTIFICATE_VERIFY", "len(self.g_key_log) == len(old(self.g_key_log))", "keys_same(self)", _AUTH_BUT_CERT, "self._peer_certificate is not None"],
+    ensures=["self.state == State.CLIENT_EXPECT_CERTIFICATE_VERIFY", "len(self.g_key_log) == len(old(self.g_key_log))", "keys_same(self)", _AUTH_BUT_CERT, "self._peer_certificate is not None", _T_FED],
     on_raise={"Exception": ["self.state == old(self.state)", "len(self.g_key_log) == len(old(self.g_key_log))", "keys_same(self)", _AUTH_BUT_CERT]},
     prop=["C11"],
 )
@@ -456,6 +480,12 @@ R.contract(
         "self.g_cv_ok",
         "len(self.g_key_log) == len(old(self.g_key_log))", "keys_same(self)",
         "self.g_fin_ok == old(self.g_fin_ok) and self.g_psk_sel == old(self.g_psk_sel) and self._session_resumed == old(self._session_resumed) and self._peer_certificate == old(self._peer_certificate) and self._is_client == old(self._is_client) and self.key_schedule == old(self.key_schedule)",
+        _T_FED,  # the signature was checked over the transcript BEFORE this message (g_cv_ok = old(cv_checked)), then the message entered it
+        # (C03) unless verification is switched off, WAIT_FINISHED is reached only with a leaf certificate that is within its
+        # validity period, matches the name this client asked for and chains to a CONFIGURED trust anchor, the server's
+        # extra certificates serving as untrusted intermediates only (contracts/tls_auth.py, verify_certificate)
+        "implies(self._verify_mode != ssl.CERT_NONE, self._peer_certificate is not None and not vc_expired(self._peer_certificate) and not vc_name_bad(self._peer_certificate, self._server_name)"
+        " and vc_chain_ok(self._peer_certificate, self._peer_certificate_chain, self._cadata, self._cafile, self._capath))",
     ],
     on_raise={"Exception": _FAIL},
     prop=["C11"],
@@ -467,12 +497,15 @@ R.contract(
     frame=True,
     requires=["self.state == State.SERVER_EXPECT_CERTIFICATE"],
     raises=dict(_NOUM, CallbackError=None, Exception=None),
-    modifies=["self._peer_certificate", "self._peer_certificate_chain", "self.state", "self._expected_verify_data", "self._new_session_ticket", "input_buf.g_pos", "output_buf.g_pos", "output_buf.g_mem", _HASH],
+    modifies=["self._peer_certificate", "self._peer_certificate_chain", "self.state", "self._expected_verify_data", "self.g_fin_base", "self.g_fin_key", "self._new_session_ticket", "input_buf.g_pos", "output_buf.g_pos", "output_buf.g_mem", _HASH],
     ensures=[
         "self.state == (State.SERVER_EXPECT_CERTIFICATE_VERIFY if self._peer_certificate is not None else State.SERVER_EXPECT_FINISHED)",
         "len(self.g_key_log) == len(old(self.g_key_log))", "keys_same(self)",
         _AUTH_BUT_CERT,
+        "implies(self.state == State.SERVER_EXPECT_CERTIFICATE_VERIFY, %s)" % _T_FED,
+        "hash_extends(self.key_schedule.g_hash, old(self.key_schedule.g_hash))",
     ],
+    cuts={"if certificate.certificates:": [_T_FED]},
     on_raise={"Exception": ["self.state == old(self.state)", "len(self.g_key_log) == len(old(self.g_key_log))", "keys_same(self)", _AUTH_BUT_CERT], "CallbackError": ["self.state == old(self.state)", "len(self.g_key_log) == len(old(self.g_key_log))", "keys_same(self)", _AUTH_BUT_CERT]},
     prop=["C11"],
 )
@@ -483,8 +516,9 @@ R.contract(
     frame=True,
     requires=["self.state == State.SERVER_EXPECT_CERTIFICATE_VERIFY"],
     raises=dict(_NOUM, CallbackError=None, Exception=None),
-    modifies=["self.g_cv_ok", "self.state", "self._expected_verify_data", "self._new_session_ticket", "input_buf.g_pos", "output_buf.g_pos", "output_buf.g_mem", _HASH],
+    modifies=["self.g_cv_ok", "self.state", "self._expected_verify_data", "self.g_fin_base", "self.g_fin_key", "self._new_session_ticket", "input_buf.g_pos", "output_buf.g_pos", "output_buf.g_mem", _HASH],
     ghost_exit={"self.g_cv_ok": "old(cv_checked(self, verify))"},
+    cuts={"self._server_expect_finished(output_buf)": [_T_FED]},
     ensures=[
         "self.state == State.SERVER_EXPECT_FINISHED",
         "self.g_cv_ok",
@@ -503,7 +537,8 @@ R.contract(
     raises=dict(_NOUM, CallbackError=None, Exception=None),
     modifies=["self._dec_key", "self._next_dec_key", "self.g_key_log", "self.g_fin_ok", "self.state", "input_buf.g_pos"],
     # g_fin_ok := outcome of the comparison, recorded where the key is about to be committed
-    ghost_at={"self._dec_key = self._next_dec_key": {"self.g_fin_ok": "finished.verify_data == self._expected_verify_data"}},
+    # (C03: extensional equality, length included, with the MAC over the transcript before the client Finished - H8)
+    ghost_at={"self._dec_key = self._next_dec_key": {"self.g_fin_ok": "finished.verify_data == fin_mac(self.g_fin_base, self.g_fin_key)"}},
     ensures=[
         "self.state == State.SERVER_POST_HANDSHAKE",
         "same(self.g_key_log, old(self.g_key_log) + [(Direction.DECRYPT, Epoch.ONE_RTT)])",
@@ -548,8 +583,10 @@ R.contract("os.urandom", returns="bytes", ensures=["len(result) == a0"], trusted
 R.contract("struct.unpack", returns="tuple[int]", raises={"Exception": None}, trusted=True, note="stdlib")
 R.contract("decode_public_key", params={"key_share": "Optional[tuple[int,bytes]]"}, returns="Optional[Any]", raises={"Exception": None}, trusted=True,
            note="tls.py wrapper around cryptography public-key decoding: returns an opaque key object or None, may raise")
+R.ufunc("key_sig_algs", ["Optional[SigningKey]"], "list[int]")
 R.contract("Context._signature_algorithms_for_private_key", returns="list[int]", trusted=True, use_invariant=False,
-           note="tls.py: classifies the configured private key with isinstance on cryptography types; reads only, result opaque")
+           ensures=["same(result, key_sig_algs(self.certificate_private_key))"],
+           note="tls.py: classifies the configured private key with isinstance on cryptography types; reads only, result an opaque but FIXED function of the key object (key_sig_algs)")
 R.contract("Context._build_session_ticket", params={"other_extensions": "Optional[list[tuple[int,bytes]]]"}, returns="SessionTicket", raises={"Exception": None}, trusted=True, use_invariant=False,
            note="tls.py: derives the resumption secret (HKDF) and builds a SessionTicket record; reads only")
 R.field_types("KeyScheduleProxy")
@@ -564,7 +601,7 @@ for _p in ("certificate", "certificate_verify", "finished", "new_session_ticket"
         note="tls.py message serializer: trusted stub (appends to the buffer, BufferWriteError when full)",
     )
 # negotiate(): first supported value that was offered; otherwise the given alert (or None) - executed at call sites
-R.contract("negotiate", inline=True, loops={0: dict(invariant=[])})
+# (inline contract with the loop invariant, and the standalone raises-iff / first-common contract: contracts/tls_auth.py, C03)
 
 # A.2 WAIT_FLIGHT2 / after the client's authentication messages: compute the expected client Finished, optionally
 # issue a session ticket, then wait for Finished.  No traffic key is touched here.
@@ -574,8 +611,17 @@ R.contract(
     frame=True,
     requires=["self.key_schedule is not None"],
     raises={"CallbackError": None, "Exception": None},
-    modifies=["self._expected_verify_data", "self._new_session_ticket", "self.state", "onertt_buf.g_pos", "onertt_buf.g_mem", _HASH],
-    ensures=["self.state == State.SERVER_EXPECT_FINISHED"],
+    modifies=["self._expected_verify_data", "self.g_fin_base", "self.g_fin_key", "self._new_session_ticket", "self.state", "onertt_buf.g_pos", "onertt_buf.g_mem", _HASH],
+    ghost_at={"self._expected_verify_data = self.key_schedule.finished_verify_data(self._dec_key)": {"self.g_fin_base": "self.key_schedule.g_hash", "self.g_fin_key": "self._dec_key"}},
+    ensures=[
+        "self.state == State.SERVER_EXPECT_FINISHED",
+        # (C03) RFC 8446 4.4.4: the client Finished covers the transcript up to, not including, itself; the key is the
+        # client handshake traffic secret (_dec_key, untouched here)
+        "same(self.g_fin_base, old(self.key_schedule.g_hash)) and self.g_fin_key == old(self._dec_key)",
+        "same(self._expected_verify_data, fin_mac(self.g_fin_base, self.g_fin_key))",
+        # the transcript only grows (by the anticipated client Finished)
+        "hash_extends(self.key_schedule.g_hash, old(self.key_schedule.g_hash))",
+    ],
     on_raise={"Exception": ["self.state == old(self.state)"], "CallbackError": ["self.state == old(self.state)"]},
     prop=["C11"],
 )
@@ -633,7 +679,14 @@ R.contract(
     requires=["self.state == State.CLIENT_EXPECT_FINISHED"],
     raises=dict(_NOUM, CallbackError=None, Exception=None),
     modifies=["self._dec_key", "self._enc_key", "self.g_key_log", "self.g_fin_ok", "self.state", "input_buf.g_pos", "output_buf.g_pos", "output_buf.g_mem"] + _KS_FIELDS,
-    ghost_at={"self.key_schedule.update_hash(input_buf.data)": {"self.g_fin_ok": "finished.verify_data == expected_verify_data"}},
+    # (C03) g_fin_ok: the received verify_data EQUALS (same length, same bytes) the MAC over the transcript AS IT WAS ON
+    # ENTRY - before this Finished message - under the server handshake traffic secret; it does not mention the local
+    # variable the code compares with
+    ghost_at={"self.key_schedule.update_hash(input_buf.data)": {"self.g_fin_ok": "finished.verify_data == fin_mac(old(self.key_schedule.g_hash), old(self._dec_key))"}},
+    # (C03) and only then the message itself enters the transcript, whole (everything the parser consumed) and once
+    cuts={"assert self.key_schedule.generation == 2": ["hash_fed(self.key_schedule.g_hash, old(self.key_schedule.g_hash), input_buf.g_mem, input_buf.g_pos)", "self.g_fin_ok"]},
+    # a loop is not expected here; if one appears nothing is known after it
+    loops={"default": dict(invariant=[])},
     ensures=[
         "self.state == State.CLIENT_POST_HANDSHAKE",
         "same(self.g_key_log, old(self.g_key_log) + [(Direction.DECRYPT, Epoch.ONE_RTT)] + [(Direction.ENCRYPT, Epoch.ONE_RTT)])",
@@ -655,7 +708,7 @@ R.contract(
     requires=["self.state == State.SERVER_EXPECT_CLIENT_HELLO"],
     raises=dict(_NOUM, CallbackError=None, Exception=None),
     modifies=["self.key_schedule", "self._session_resumed", "self._dec_key", "self._enc_key", "self._next_dec_key", "self.g_key_log", "self.state", "self.alpn_negotiated",
-              "self.early_data_accepted", "self.received_extensions", "self._psk_key_exchange_mode", "self._expected_verify_data", "self._new_session_ticket",
+              "self.early_data_accepted", "self.received_extensions", "self._psk_key_exchange_mode", "self._expected_verify_data", "self.g_fin_base", "self.g_fin_key", "self._new_session_ticket",
               "self.client_random", "self.server_random", "self.legacy_session_id", "self._x25519_private_key", "self._x448_private_key", "self._ec_private_keys",
               "Buffer.g_pos[*]", "Buffer.g_mem[*]"] + _KS_FIELDS,
     ensures=[
@@ -691,11 +744,11 @@ R.contract(
     params={"output_buf": "dict[Epoch,Buffer]"},
     raises={"Exception": None},
     modifies=[],
-    loops={0: dict(invariant=["self.state != State.CLIENT_HANDSHAKE_START"] + H_MAIN + H_SERVER_AUTH, modifies=[
+    loops={0: dict(invariant=["self.state != State.CLIENT_HANDSHAKE_START"] + H_MAIN + H_SERVER_AUTH + H_FIN, modifies=[
         "self.state", "self._enc_key", "self._dec_key", "self.g_key_log", "self.g_cv_ok", "self.g_psk_sel", "self._session_resumed",
         "self.key_schedule", "self._key_schedule_psk", "self._key_schedule_proxy", "self._peer_certificate", "self._peer_certificate_chain",
         "self._certificate_request", "self.alpn_negotiated", "self.early_data_accepted", "self.received_extensions",
-        "self.g_fin_ok", "self._expected_verify_data", "self._new_session_ticket", "self._next_dec_key", "self._psk_key_exchange_mode",
+        "self.g_fin_ok", "self.g_fin_base", "self.g_fin_key", "self._expected_verify_data", "self._new_session_ticket", "self._next_dec_key", "self._psk_key_exchange_mode",
         "self.client_random", "self.server_random", "self.legacy_session_id", "self._x25519_private_key", "self._x448_private_key", "self._ec_private_keys",
         "Buffer.g_pos[*]", "Buffer.g_mem[*]", "Buffer.g_cap[*]"] + _KS_FIELDS)},
     ensures=["self.state != State.CLIENT_HANDSHAKE_START"],
